@@ -218,6 +218,8 @@ class StmtMixin:
         return [Out('ok', st)]
 
     def setitem(self, st: St, base: V, idx: V, v: V, node=None):
+        if isinstance(base, SV) and base.cls is None:
+            base = self.probe_class(st, base)
         if isinstance(base, SV):
             c = base.cls
             if c is not None and not c.external:
@@ -260,6 +262,8 @@ class StmtMixin:
         return outs
 
     def delitem(self, st, base, idx, node=None):
+        if isinstance(base, SV) and base.cls is None:
+            base = self.probe_class(st, base)
         if isinstance(base, SV):
             c = base.cls
             if c is not None and not c.external:
